@@ -14,10 +14,10 @@ Definition filed_save_protocol : protocol :=
 
 Definition generic_save_protocol : protocol :=
   [(OpOpen, Some []) (* offset.go:43 *);
-   (OpWrite, Some [OpClose]) (* offset.go:53 *);
-   (OpSync, Some [OpClose]) (* offset.go:57 *);
-   (OpClose, None) (* offset.go:57 (deferred) *);
-   (OpRename, Some []) (* offset.go:64 *)].
+   (OpWrite, Some [OpClose]) (* offset.go:50 *);
+   (OpSync, Some [OpClose]) (* offset.go:54 *);
+   (OpClose, None) (* offset.go:54 (deferred) *);
+   (OpRename, Some []) (* offset.go:61 *)].
 
 (* offsetDB.save keeps o.mu (which guards the shared o.buf / o.jobsSnapshot) from before it builds the buffer
    until after the rename: Lock stmt 1, defer Unlock stmt 2, Unlock stmt -1, first use of o.buf/snapshotJobs stmt 3, Rename stmt 16, 1 Lock / 1 Unlock calls *)
